@@ -213,4 +213,43 @@ MUTANTS = [
     dict(p="C20", id="get-no-stamp-increment", file="versatiles_core/src/types/limited_cache.rs",
          old="			self.last_index += 1;\n			*old_index = self.last_index;\n			Some(value.clone())", new="			*old_index = self.last_index;\n			Some(value.clone())",
          why="a used entry gets the stamp of the last insertion, ties with it"),
+    # ---------------------------------------------------------------- C09
+    dict(p="C09", id="zoom-min-max-crossed", file="versatiles_pipeline/src/operations/transform/filter_zoom.rs",
+         old="				parameters.bbox_pyramid.set_zoom_min(min);", new="				parameters.bbox_pyramid.set_zoom_max(min);",
+         why="min= wired to the upper limit"),
+    dict(p="C09", id="zoom-lookup-unguarded", file="versatiles_pipeline/src/operations/transform/filter_zoom.rs",
+         old="		if self.parameters.bbox_pyramid.contains_coord(coord) {\n			self.source.get_tile_data(coord).await\n		} else {\n			Ok(None)\n		}",
+         new="		self.source.get_tile_data(coord).await", why="lookups outside the retained zoom range pass"),
+    dict(p="C09", id="zoom-stream-unclipped", file="versatiles_pipeline/src/operations/transform/filter_zoom.rs",
+         old="		bbox.intersect_pyramid(&self.parameters.bbox_pyramid).unwrap();\n		self.source.get_tile_stream(bbox).await", new="		self.source.get_tile_stream(bbox).await",
+         why="streams outside the retained range pass"),
+    dict(p="C09", id="zoom-guard-uses-source-coverage", file="versatiles_pipeline/src/operations/transform/filter_zoom.rs",
+         old="		if self.parameters.bbox_pyramid.contains_coord(coord) {", new="		if self.source.get_parameters().bbox_pyramid.contains_coord(coord) {",
+         why="lookup guarded by the un-narrowed coverage of the source"),
+    # ---------------------------------------------------------------- C10
+    dict(p="C10", id="merge-replaces-layer", file="versatiles_pipeline/src/operations/read/from_vectortiles_merged.rs",
+         old="				layer.add_from_layer(new_layer)?;", new="				*layer = new_layer;",
+         why="later source replaces the layer instead of appending its features"),
+    dict(p="C10", id="merge-lookup-skips-decompress", file="versatiles_pipeline/src/operations/read/from_vectortiles_merged.rs",
+         old="				blob = decompress(blob, &source.get_parameters().tile_compression)?;\n				blobs.push(blob);", new="				blobs.push(blob);",
+         why="compressed source tiles are parsed as raw MVT"),
+    dict(p="C10", id="merge-stream-decompress-first-source", file="versatiles_pipeline/src/operations/read/from_vectortiles_merged.rs",
+         old="						blob = decompress(blob, &source.get_parameters().tile_compression).unwrap();", new="						blob = decompress(blob, &self.sources[0].get_parameters().tile_compression).unwrap();",
+         why="stream decodes every source with the first source's compression"),
+    dict(p="C10", id="add-from-layer-keeps-tag-ids", file="versatiles_geometry/src/vector_tile/layer.rs",
+         old="			let properties = layer.decode_tag_ids(&feature.tag_ids)?;\n			self.add_vector_tile_features(feature, properties);", new="			let _properties = layer.decode_tag_ids(&feature.tag_ids)?;\n			self.features.push(feature);",
+         why="features keep tag ids of the other layer's tables"),
+    dict(p="C10", id="add-from-layer-reversed", file="versatiles_geometry/src/vector_tile/layer.rs",
+         old="		for feature in features {\n			let properties = layer.decode_tag_ids", new="		for feature in features.into_iter().rev() {\n			let properties = layer.decode_tag_ids",
+         why="source order of features reversed"),
+    # ---------------------------------------------------------------- C08
+    dict(p="C08", id="lookup-continues-after-hit", file="versatiles_pipeline/src/operations/read/from_overlayed.rs",
+         old="				return Ok(Some(blob));\n			}\n		}\n		return Ok(None);", new="				found = Some(blob);\n			}\n		}\n		return Ok(found);",
+         why="last source with a tile wins (needs `let mut found = None;`)", edits=[("		for source in self.sources.iter() {\n			let result = source.get_tile_data(coord).await?;", "		let mut found = None;\n		for source in self.sources.iter() {\n			let result = source.get_tile_data(coord).await?;")]),
+    dict(p="C08", id="stream-recompress-from-declared", file="versatiles_pipeline/src/operations/read/from_overlayed.rs",
+         old="blob = recompress(blob, &source.get_parameters().tile_compression, output_compression).unwrap();", new="blob = recompress(blob, output_compression, output_compression).unwrap();",
+         why="stream re-encodes from the overlay's own compression instead of the producing source's"),
+    dict(p="C08", id="coverage-first-source-only", file="versatiles_pipeline/src/operations/read/from_overlayed.rs",
+         old="				pyramid.include_bbox_pyramid(&parameters.bbox_pyramid);\n				ensure!(\n					parameters.tile_format == tile_format,", new="				ensure!(\n					parameters.tile_format == tile_format,",
+         why="advertised coverage is the first source's only"),
 ]
